@@ -248,30 +248,53 @@ macro_rules! all_widths {
 struct Fill;
 /// bytes currently allocated (the leak witness: "the conversions leak nothing")
 static LIVE: std::sync::atomic::AtomicIsize = std::sync::atomic::AtomicIsize::new(0);
+/// frees of a block that is not live (double free / free of a dangling copy)
+static BAD_FREES: std::sync::atomic::AtomicUsize = std::sync::atomic::AtomicUsize::new(0);
+const MARK_LIVE: u64 = 0x4c49_5645_4c49_5645;
+const MARK_DEAD: u64 = 0x4445_4144_4445_4144;
+/// Every block carries a header with a live / dead mark: a second free of the same block is
+/// counted and NOT handed to the system allocator (glibc would abort only sometimes, depending on
+/// what was allocated in between), so that a double free is a deterministic, reported event.
+fn header(l: std::alloc::Layout) -> (usize, std::alloc::Layout) {
+    let h = l.align().max(16);
+    (h, std::alloc::Layout::from_size_align(l.size() + h, h).unwrap())
+}
 unsafe impl std::alloc::GlobalAlloc for Fill {
     unsafe fn alloc(&self, l: std::alloc::Layout) -> *mut u8 {
-        let p = std::alloc::System.alloc(l);
-        if !p.is_null() {
-            std::ptr::write_bytes(p, 0x55, l.size());
-            LIVE.fetch_add(l.size() as isize, std::sync::atomic::Ordering::Relaxed);
+        let (h, big) = header(l);
+        let p = std::alloc::System.alloc(big);
+        if p.is_null() {
+            return p;
         }
-        p
+        std::ptr::write_bytes(p, 0x55, big.size());
+        (p as *mut u64).write(MARK_LIVE);
+        LIVE.fetch_add(l.size() as isize, std::sync::atomic::Ordering::Relaxed);
+        p.add(h)
     }
     unsafe fn dealloc(&self, p: *mut u8, l: std::alloc::Layout) {
+        let (h, big) = header(l);
+        let base = p.sub(h);
         LIVE.fetch_sub(l.size() as isize, std::sync::atomic::Ordering::Relaxed);
-        std::alloc::System.dealloc(p, l)
+        if (base as *mut u64).read() != MARK_LIVE {
+            BAD_FREES.fetch_add(1, std::sync::atomic::Ordering::Relaxed);
+            return;
+        }
+        (base as *mut u64).write(MARK_DEAD);
+        std::alloc::System.dealloc(base, big)
     }
     unsafe fn alloc_zeroed(&self, l: std::alloc::Layout) -> *mut u8 {
-        let p = std::alloc::System.alloc_zeroed(l);
+        let p = self.alloc(l);
         if !p.is_null() {
-            LIVE.fetch_add(l.size() as isize, std::sync::atomic::Ordering::Relaxed);
+            std::ptr::write_bytes(p, 0, l.size());
         }
         p
     }
     unsafe fn realloc(&self, p: *mut u8, l: std::alloc::Layout, n: usize) -> *mut u8 {
-        let q = std::alloc::System.realloc(p, l, n);
+        let nl = std::alloc::Layout::from_size_align_unchecked(n, l.align());
+        let q = self.alloc(nl);
         if !q.is_null() {
-            LIVE.fetch_add(n as isize - l.size() as isize, std::sync::atomic::Ordering::Relaxed);
+            std::ptr::copy_nonoverlapping(p, q, l.size().min(n));
+            self.dealloc(p, l);
         }
         q
     }
@@ -292,6 +315,14 @@ fn leak_check(st: &mut Stats) -> Vec<isize> {
     let _warm = run();
     let deltas: Vec<isize> = (0..3).map(|_| run()).collect();
     st.evaluations += 3;
+    let bad = BAD_FREES.load(std::sync::atomic::Ordering::SeqCst);
+    if bad > 0 {
+        st.violation(Violation {
+            sig: "memory double free".into(),
+            case: json!({"enumeration": "all conversions, dimensions <= 3", "frees_of_blocks_that_are_not_live": bad}),
+            what: format!("{bad} frees of heap blocks that were not live (a conversion result shares its storage with the source, or a value is dropped twice)"),
+        });
+    }
     if deltas.iter().any(|d| *d != 0) {
         st.violation(Violation {
             sig: "memory leak".into(),
